@@ -11,7 +11,7 @@ RULE = ('(a) AdbMessage(cmd, arg0, arg1, data).pack() for all 7 commands x arg0,
         'edges) x payload shapes {empty, every single byte value, 0xff runs around 256, 4096, 65536, 1 MiB of 0xff, seeded random; bytes and bytearray}, decoded by an '
         'independent parser (int.from_bytes, literal command words, byte sum) and by the library\'s own unpack; thorough adds a 17 MiB payload whose byte sum exceeds 2^32; '
         '(b) the complete outgoing byte stream of whole sessions (all 8 operations, auth with signatures and public key, failing pushes/pulls) with the local id counter '
-        'started at 0, 2^31-2 and 2^32-3 and remote ids at the 32-bit extremes, also over transports that accept only 1..4095 bytes per write, fed through the strict parser; (c) two device objects in one process used concurrently (threads with one preemption and one short write; asyncio tasks under <=2 deviations of the I/O completion order), each stream parsed separately; non-trivial = payload non-empty or session; '
+        'started at 0, 2^31-2 and 2^32-3 and remote ids at the 32-bit extremes, devices announcing protocol versions 1 / 0x01000001 / 0x0100ffff, also over transports that accept only 1..4095 bytes per write, fed through the strict parser; (c) two device objects in one process used concurrently (threads with one preemption and one short write; asyncio tasks under <=2 deviations of the I/O completion order), each stream parsed separately; non-trivial = payload non-empty or session; '
         'distinct = distinct (cmd, arg0, arg1, payload shape) / session parameters' % len(B))
 ASSUMPTIONS = ['frames.py (independent codec) implements AOSP protocol.txt correctly', 'the strict parser of adbsim also runs on every execution of every other check']
 
@@ -77,6 +77,8 @@ def run_session(params, ch):
     cfg = scen.ops_cfg(params['chunking'], params['maxdata'], 'after-ack', 'extreme')
     if params.get('cap'):
         cfg['wcap_global'] = params['cap']
+    if params.get('version'):
+        cfg['version'] = params['version']
     if params.get('fail'):
         cfg['fail'] = params['fail']
     s = Session(ch, cfg, twin=params['twin'])
@@ -170,6 +172,32 @@ def run_two_devices(params, ch):
             'sample': {'twin': twin, 'deviations': [(i, c) for i, c in enumerate(ch.choices) if c][:6]}, 'trans': steps}
 
 
+def run_reconnect_race(params, ch):
+    """One thread is in the middle of an operation while another calls connect() again on the same object: whatever is written to
+    each connection must still be a sequence of whole, well-formed messages."""
+    from ..sched import SchedLock, Scheduler
+    cfg = scen.ops_cfg('two', 4096)
+    s = Session(ch, cfg, twin='sync', lock_factory=SchedLock, max_calls=5000)
+    try:
+        s.op(('connect',))
+        sc = Scheduler(ch, max_steps=6000)
+        s.env.sched = sc
+        sc.spawn(lambda: s.op(('streaming_shell', 'c', {'decode': False, 'transport_timeout_s': 0.5, 'read_timeout_s': 0.5})), name='stream')
+        sc.spawn(lambda: s.op(('connect',)), name='reconnect')
+        res = sc.run()
+        s.env.sched = None
+        viol = [{'msg': '%s: %s' % i} for i in s.env.issues if i[0] == 'frame']
+        if sc.verdict and not sc.verdict.startswith('livelock'):
+            viol.append({'msg': 'scheduler verdict: %s' % sc.verdict})
+        if res[1] != ('ok', True):
+            viol.append({'msg': 'the concurrent connect() gave %r' % (res[1],)})
+        dev = [c for c in ch.choices if c]
+        return {'outcome': (res[0][0], res[1][0]), 'viol': viol, 'nontrivial': tuple(ch.choices) if dev else None, 'sample': {'results': [r[0] for r in res]}, 'trans': sc.steps}
+    finally:
+        s.env.sched = None
+        s.finish()
+
+
 def parts(tier):
     sc = [{'cmd': c, 'a0': a0} for c in frames.NAMES for a0 in B]
     out = [Part('pack-grid', sc, run_grid, what='7 commands x %d^2 argument values x 5 payloads' % len(B), bound='%d packs' % (len(sc) * len(B) * 5))]
@@ -187,10 +215,14 @@ def parts(tier):
                             sc.append({'twin': twin, 'start': start, 'maxdata': md, 'chunking': chk, 'connect': con, 'fail': fail, 'ops': list(scen.OPS8), 'push_size': 9000})
     sc += [{'twin': t, 'start': 0, 'maxdata': 4096, 'chunking': 'two', 'connect': auths[1], 'fail': None, 'ops': list(scen.OPS8), 'push_size': 9000, 'cap': c}
            for t in ('sync', 'async') for c in (1, 5, 7, 23, 24, 25, 100, 4095)]
+    sc += [{'twin': t, 'start': 0, 'maxdata': md, 'chunking': 'two', 'connect': con, 'fail': None, 'ops': list(scen.OPS8), 'push_size': 9000, 'version': v}
+           for t in ('sync', 'async') for md in (4096, 1024 * 1024) for con in auths for v in (0x01000001, 0x01000000 + 0xFFFF, 1)]
     out.append(Part('sessions', sc, run_session, {'dev-order': None}, what='whole sessions through the strict parser, id counter at the wrap, remote ids at 32-bit extremes',
                     bound='%d sessions' % len(sc)))
     out.append(Part('two-devices', [{'twin': 'sync'}], run_two_devices, {'sched': 1, 'wcap': 1, 'dev-order': 0}, split=2, min_outcomes=1,
                     what='two device objects used from two threads, one over a short-writing transport: all schedules with one preemption x one short write', bound='preemptions <= 1, short writes <= 1'))
     out.append(Part('two-devices-async', [{'twin': 'async'}], run_two_devices, {'io-order': 2, 'dev-order': 0}, split=2, min_outcomes=1,
                     what='two device objects used from two asyncio tasks on one loop: every placement of <=2 deviations from the default I/O completion order', bound='io-order deviations <= 2'))
+    out.append(Part('reconnect-race', [{}], run_reconnect_race, {'sched': 2, 'dev-order': 0}, split=2, min_outcomes=1,
+                    what='a thread in the middle of a streaming_shell while another thread calls connect() again: every schedule with <=2 preemptions', bound='preemptions <= 2'))
     return out
